@@ -69,6 +69,9 @@ Definition serve (n : node) (r : request) : list block :=
   end.
 
 (* ---------------- packetStats ---------------- *)
+(* The model has ONE implicit set of peers that never shrinks: the target is the heaviest statistics heard so far.  (The
+   implementation recomputes SyncHeight / SyncDiff in every Synchronize iteration from the peers that are still
+   connected, so that the announcement of a peer that has left does not stay; peers leaving are not modelled.) *)
 Definition recv_stats (s : sync) (h cd : N) : sync :=
   if sy_diff s <? cd then set_target s h cd else s.
 
@@ -93,13 +96,22 @@ Definition queue_request (e : N * N) : request :=
   if snd e =? 0 then ReqHash (fst e) else ReqHeight (snd e) 0.
 
 (* ---------------- Synchronize: one iteration ---------------- *)
+(* the highest height at which the node holds a block: its own height or the height of an alternative tip *)
+Definition held_height (n : node) : N :=
+  fold_left (fun acc (kv : N * tip) => N.max acc (t_height (snd kv))) (tips n) (top_h n).
+
 (* the by-height part (the function literal that runs under SyncMut); [rq] = the request already made for a queue entry *)
 Definition tick_height (s : sync) (rq : list request) : sync * list request :=
   let n := sy_node s in
   if (top_h n <? sy_last s) && negb (20 <? sy_wait s)
   then (set_last s (sy_last s) (sy_wait s + 1), rq)             (* blocks were requested and have not arrived yet: wait *)
   else
-    let last0 := if top_h n <? sy_last s then top_h n else sy_last s in   (* waited long enough: start again at our height *)
+    (* waited long enough.  The requested blocks have not extended the main chain: they are lost only if no block is
+       held at the last requested height (blocks of a branch that is not heavier yet are stored as an alternative chain,
+       which does not move our height): then start again at our height, otherwise continue above them *)
+    let last0 := if top_h n <? sy_last s
+                 then (if (held_height n <? sy_last s) || (sy_height s <=? sy_last s) then top_h n else sy_last s)
+                 else sy_last s in
     let last := N.max last0 (top_h n) in
     let s1 := set_last s last 0 in
     if last <? sy_height s then
